@@ -185,6 +185,19 @@ def direct_cases():
                       [('repeat', ('count', num(5)),
                         [('repeat', ('forever',), [('break',)]), P(v('i')), ('break',)]),
                        ('println', v('i'))])], pop))
+    # lights that were never given a label, a group or a location report the empty string: a blank
+    # name is a name like any other (it sorts first) — bound once, counted for the range
+    blank = [{'label': '', 'group': '', 'location': 'Home', 'kind': 'plain'},
+             {'label': 'b', 'group': 'Pole', 'location': '', 'kind': 'plain'},
+             {'label': 'c', 'group': '', 'location': '', 'kind': 'plain'},
+             {'label': 'd', 'group': 'Pole', 'location': 'Home', 'kind': 'plain'}]
+    P = lambda e: ('print', e)  # noqa
+    for w in (None, ('from', 'x', num(0), num(99)), ('cycle', 'x', None)):
+        for hdr in (('all', 'L', w), ('groups', 'L', w), ('locations', 'L', w),
+                    ('in', [('group', ('str', ''))], 'L', w), ('in', [('location', ('str', ''))], 'L', w),
+                    ('in', [('light', ('str', '')), ('light', ('str', 'd'))], 'L', w)):
+            body = [P(v('L'))] + ([P(v('x'))] if w else [])
+            out.append(([('repeat', hdr, body), P(num(1))], blank))
     return out
 
 
